@@ -5,9 +5,9 @@
 # Writes /verif/seeded/<Cxx>-<n>/{patch.diff,demo.rs,NOTES.md,confirm.log,confirm.json}
 set -u
 id="$1"; n="$2"
-wt=/tmp/seed/$id
+wt=${SEED_ROOT:-/tmp/seed}/$id
 sd=$wt/SEEDED
-out=/verif/seeded/$id-$n
+out=/verif/seeded/$id-${OUT_TAG:-}$n
 mkdir -p "$out"
 cp "$sd/patch$n.diff" "$out/patch.diff"
 cp "$sd/demo$n.rs" "$out/demo.rs" 2>/dev/null || cp "$sd"/demo$n.* "$out/" 2>/dev/null
